@@ -11,13 +11,15 @@ Definition idx_ok (f : frac) : Prop := Forall (tl_ok (nids f)) (f_toks f).
 
 (* the LIDs a writer holds between AppendIDs and the last queue put are LIDs of its fraction *)
 Definition w_ok (st : state) (x : wst) : Prop :=
-  5 <= w_pc x <= 7 -> forall lid, In lid (w_lids x) -> lid < nids (getf st (w_g x)).
+  (1 <= w_pc x -> w_g x < length (fracs st))
+  /\ (5 <= w_pc x <= 7 -> forall lid, In lid (w_lids x) -> lid < nids (getf st (w_g x))).
 
 Definition IInv (st : state) : Prop :=
-  Forall idx_ok (fracs st) /\ Forall (w_ok st) (ws st).
+  (Forall idx_ok (fracs st) /\ 0 < length (fracs st)) /\ Forall (w_ok st) (ws st).
 
-(* st' has at least the IDs of st, fraction by fraction *)
-Definition grow (st st' : state) : Prop := forall g, nids (getf st g) <= nids (getf st' g).
+(* st' has at least the fractions and IDs of st, fraction by fraction *)
+Definition grow (st st' : state) : Prop :=
+  length (fracs st) <= length (fracs st') /\ forall g, nids (getf st g) <= nids (getf st' g).
 
 Lemma nth_upd {A} (h : A -> A) l n g d :
   nth g (upd n h l) d = if (Nat.eqb g n && Nat.ltb g (length l))%bool then h (nth g l d) else nth g l d.
@@ -31,22 +33,20 @@ Lemma getf_setf st g h g' :
   getf (setf st g h) g' = if (Nat.eqb g' g && Nat.ltb g' (length (fracs st)))%bool then h (getf st g') else getf st g'.
 Proof. unfold getf, setf; simpl. apply nth_upd. Qed.
 
-Lemma grow_refl st : grow st st. Proof. intros g; auto. Qed.
+Lemma grow_refl st : grow st st. Proof. split; auto. Qed.
 
 Lemma grow_setf st g h : (forall x, nids x <= nids (h x)) -> grow st (setf st g h).
-Proof. intros H g'. rewrite getf_setf. destruct (_ && _)%bool; auto. Qed.
+Proof. intros H; split; [unfold setf; simpl; rewrite length_upd; auto|]. intros g'. rewrite getf_setf. destruct (_ && _)%bool; auto. Qed.
 
 Lemma Forall_upd {A} (P : A -> Prop) (h : A -> A) n l :
   Forall P l -> (forall x, nth_error l n = Some x -> P x -> P (h x)) -> Forall P (upd n h l).
 Proof.
-  revert n; induction l; intros n HF Hh; simpl; auto.
+  revert n; induction l; intros n HF Hh; [destruct n; simpl; auto|].
   inversion HF; subst. destruct n; simpl; constructor; auto.
-  - apply (Hh a); auto.
-  - apply IHl; auto. intros x E; apply (Hh x); exact E.
 Qed.
 
 Lemma w_ok_grow st st' x : grow st st' -> w_ok st x -> w_ok st' x.
-Proof. unfold w_ok, grow; intros G H R lid HL. specialize (G (w_g x)). specialize (H R lid HL). lia. Qed.
+Proof. unfold w_ok, grow; intros [GL G] [H0 H]; split; [intros R; specialize (H0 R); lia|]. intros R lid HL. specialize (G (w_g x)). specialize (H R lid HL). lia. Qed.
 
 Lemma tl_ok_mono n m t : n <= m -> tl_ok n t -> tl_ok m t.
 Proof. unfold tl_ok; intros L H lid HL; specialize (H lid HL); lia. Qed.
@@ -81,7 +81,7 @@ Qed.
 Lemma IInv_frame st st' :
   ws st' = ws st -> grow st st' -> Forall idx_ok (fracs st') -> IInv st -> IInv st'.
 Proof.
-  intros EW G HF [_ HW]. split; auto. rewrite EW. eapply Forall_impl; [|exact HW]. intros x; apply w_ok_grow; auto.
+  intros EW G HF [[_ HL] HW]. split; [split; auto; destruct G; lia|]. rewrite EW. eapply Forall_impl; [|exact HW]. intros x; apply w_ok_grow; auto.
 Qed.
 
 (* a step that rewrites fraction g without touching IDs and token lists, and leaves the writers alone *)
@@ -90,7 +90,7 @@ Lemma IInv_setf_same st g h :
 Proof.
   intros H1 H2 HI. apply IInv_frame with st; auto.
   - apply grow_setf. intros; unfold nids; rewrite H1; auto.
-  - destruct HI as [HF _]. unfold setf; simpl. apply Forall_upd; auto. intros x _. apply idx_ok_same; auto.
+  - destruct HI as [[HF _] _]. unfold setf; simpl. apply Forall_upd; auto. intros x _. apply idx_ok_same; auto.
 Qed.
 
 Lemma IInv_setr st r h : IInv st -> IInv (setr st r h).
@@ -101,14 +101,14 @@ Lemma IInv_set_toks st g (k : frac -> list tlids) :
 Proof.
   intros Hk HI. apply IInv_frame with st; auto.
   - apply grow_setf. intros; auto.
-  - destruct HI as [HF _]. unfold setf; simpl. apply Forall_upd; auto. intros x _ Hx. unfold idx_ok; simpl. apply Hk; auto.
+  - destruct HI as [[HF _] _]. unfold setf; simpl. apply Forall_upd; auto. intros x _ Hx. change (Forall (tl_ok (nids x)) (k x)). apply Hk; auto.
 Qed.
 
 Lemma advance_iinv st r g q a b m n s p : IInv st -> IInv (fst (advance st r g q a b m n s p)).
 Proof.
   revert s; induction p; intros s HI; simpl.
   - unfold set_op. apply IInv_setr. apply IInv_setf_same; auto.
-  - destruct (has_tok a0 (f_toks (getf st g))); simpl; auto. unfold set_op; apply IInv_setr; auto.
+  - destruct (has_tok a0 (f_toks (getf st g))); simpl; auto.
 Qed.
 
 Lemma step_r_iinv c st r : IInv st -> IInv (fst (step_r c st r)).
@@ -145,7 +145,6 @@ Qed.
 Lemma step_snap_iinv st r : IInv st -> IInv (fst (step_snap st r)).
 Proof.
   intros HI. unfold step_snap. destruct (nth_error (rs st) r) as [x|]; simpl; auto. destruct (r_op x); simpl; auto.
-  apply IInv_setr; auto.
 Qed.
 
 (* writers: the fraction part and the writer part are handled together *)
@@ -156,8 +155,8 @@ Lemma IInv_w st w g hf hw :
   (forall x, nth_error (ws st) w = Some x -> w_ok st x -> w_ok (setf st g hf) (hw x)) ->
   IInv (setw (setf st g hf) w hw).
 Proof.
-  intros [HF HW] G Hf Hw. split; simpl.
-  - apply Forall_upd; auto.
+  intros [[HF HL] HW] G Hf Hw. split; simpl.
+  - split; [apply Forall_upd; auto | rewrite length_upd; auto].
   - apply Forall_upd.
     + eapply Forall_impl; [|exact HW]. intros x. apply w_ok_grow. exact G.
     + intros x E Hx. apply Hw; auto.
@@ -165,71 +164,72 @@ Proof.
       rewrite Forall_forall in HW. apply HW. eapply nth_error_In; eauto.
 Qed.
 
-Lemma w_ok_out st x : ~ (5 <= w_pc x <= 7) -> w_ok st x.
-Proof. unfold w_ok; intros N R; contradiction. Qed.
+Lemma w_ok_out st x : (1 <= w_pc x -> w_g x < length (fracs st)) -> ~ (5 <= w_pc x <= 7) -> w_ok st x.
+Proof. unfold w_ok; intros L N; split; auto. intros R; contradiction. Qed.
+
+Ltac growt := apply grow_setf; intros; unfold nids; simpl; rewrite ?app_length; lia.
+Ltac lenf := unfold setf; simpl; rewrite ?length_upd.
 
 Lemma step_w_iinv c st w : IInv st -> IInv (fst (step_w c st w)).
 Proof.
   intros HI. unfold step_w. destruct (nth_error (ws st) w) as [x|] eqn:EX; simpl; auto.
   assert (WX : w_ok st x).
   { destruct HI as [_ HW]. rewrite Forall_forall in HW. apply HW. eapply nth_error_In; eauto. }
+  assert (L0 : 0 < length (fracs st)) by (destruct HI as [[_ L] _]; auto).
+  assert (LL : last_g st < length (fracs st)) by (unfold last_g; lia).
+  destruct WX as [WR WL].
+  assert (OUT : forall pc' (y : wst), w_g y = w_g x -> w_pc y = pc' -> 1 <= w_pc x -> ~ (5 <= pc' <= 7) ->
+                forall hf, w_ok (setf st (w_g x) hf) y).
+  { intros pc' y E1 E2 R N hf. apply w_ok_out; [intros _; lenf; rewrite E1; auto | rewrite E2; auto]. }
   destruct (w_pc x) as [|[|[|[|[|[|[|[|[|pc]]]]]]]]] eqn:PC; simpl.
-  - destruct (Nat.ltb _ _); simpl; auto. destruct HI as [A B]. split; auto. simpl. apply Forall_upd; auto.
-    intros; apply w_ok_out; simpl; lia.
+  - destruct (Nat.ltb _ _); simpl; auto. destruct HI as [A B]; split; auto; simpl; apply Forall_upd; auto.
+    intros; apply w_ok_out; simpl; auto; lia.
   - destruct (_ && _ && _)%bool; simpl.
-    + apply IInv_w; auto.
-      * apply grow_setf; auto.
-      * intros f _. apply idx_ok_same; auto.
-      * intros; apply w_ok_out; simpl; lia.
-    + destruct HI as [A B]. split; auto. simpl. apply Forall_upd; auto. intros; apply w_ok_out; simpl; lia.
-  - apply IInv_w; auto.
-    + apply grow_setf; auto.
-    + intros f _. apply idx_ok_same; auto.
-    + intros; apply w_ok_out; simpl; lia.
-  - destruct (set_multiple _ _ _ _); simpl. apply IInv_w; auto.
-    + apply grow_setf; auto.
-    + intros f _. apply idx_ok_same; auto.
-    + intros; apply w_ok_out; simpl; lia.
-  - (* AppendIDs *) apply IInv_w; auto.
-    + apply grow_setf. intros y; unfold nids; simpl. rewrite app_length; lia.
+    + apply IInv_w; [assumption | growt | intros ? _; apply idx_ok_same; reflexivity |].
+      intros; apply (OUT 2); simpl; auto; lia.
+    + destruct HI as [A B]; split; auto; simpl; apply Forall_upd; auto. intros; apply w_ok_out; simpl; auto; lia.
+  - apply IInv_w; [assumption | growt | intros ? _; apply idx_ok_same; reflexivity |].
+    intros; apply (OUT 3); simpl; auto; lia.
+  - destruct (set_multiple _ _ _ _); simpl.
+    apply IInv_w; [assumption | growt | intros ? _; apply idx_ok_same; reflexivity |].
+    intros; apply (OUT 4); simpl; auto; lia.
+  - (* AppendIDs *) apply IInv_w; [assumption | growt | |].
     + intros f _ H. unfold idx_ok, nids in *; simpl. eapply Forall_impl; [|exact H].
       intros t; apply tl_ok_mono. rewrite app_length; lia.
-    + intros y EY _. rewrite EX in EY; inversion EY; subst y. unfold w_ok; simpl. intros _ lid HL.
+    + intros y EY _. rewrite EX in EY; inversion EY; subst y. split; simpl; [intros _; lenf; apply WR; lia|]. intros _ lid HL.
       apply in_seq in HL. rewrite getf_setf, Nat.eqb_refl; simpl.
-      destruct (Nat.ltb (w_g x) (length (fracs st))) eqn:LT; unfold nids; simpl.
-      * rewrite app_length, map_length. lia.
-      * (* the fraction does not exist: getf is the default fraction on both sides *)
-        apply Nat.ltb_ge in LT. unfold getf in HL. rewrite nth_overflow in HL by auto.
-        unfold getf. rewrite nth_overflow by auto. simpl in *.
-        destruct (w_docs x); simpl in *; lia.
-  - (* TokenList.Append *) apply IInv_w; auto.
-    + apply grow_setf; auto.
+      assert (LT : Nat.ltb (w_g x) (length (fracs st)) = true) by (apply Nat.ltb_lt; apply WR; lia).
+      rewrite LT. unfold nids in *; simpl. rewrite app_length, map_length. lia.
+  - (* TokenList.Append *) apply IInv_w; [assumption | growt | |].
     + intros f _ H. unfold idx_ok, nids in *; simpl. apply add_toks_ok; auto.
-    + intros y EY HY. rewrite EX in EY; inversion EY; subst y. unfold w_ok in *; simpl. intros _ lid HL.
-      rewrite getf_setf. destruct (_ && _)%bool; unfold nids; simpl; apply WX; auto; lia.
+    + intros y EY HY. rewrite EX in EY; inversion EY; subst y. split; simpl; [intros _; lenf; apply WR; lia|]. intros _ lid HL.
+      rewrite getf_setf. destruct (_ && _)%bool; unfold nids; simpl; apply WL; auto; lia.
   - destruct (put_order _ _); simpl.
-    + destruct HI as [A B]. split; auto. simpl. apply Forall_upd; auto. intros; apply w_ok_out; simpl; lia.
-    + destruct HI as [A B]. split; auto. simpl. apply Forall_upd; auto.
-      intros y EY HY. rewrite EX in EY; inversion EY; subst y. unfold w_ok in *; simpl. intros _ lid HL. apply WX; auto; lia.
+    + destruct HI as [A B]; split; auto; simpl; apply Forall_upd; auto. intros; apply w_ok_out; simpl; auto; try lia; try (intros _; apply WR; lia).
+    + destruct HI as [A B]; split; auto; simpl; apply Forall_upd; auto.
+      intros y EY HY. rewrite EX in EY; inversion EY; subst y. split; simpl; [intros _; apply WR; lia|]. intros _ lid HL. apply WL; auto; lia.
   - (* one queue put *)
     assert (GL : forall t lid, In lid (group_lids t (w_docs x) (w_lids x)) -> lid < nids (getf st (w_g x))).
-    { intros t lid HL. apply WX; [lia|]. eapply group_lids_sub; eauto. }
-    destruct (Nat.ltb _ _); simpl; apply IInv_w; auto;
-      try (apply grow_setf; auto);
-      try (intros f Ef H; unfold idx_ok, nids in *; simpl; apply upd_tok_ok; auto;
-           intros y Hy lid HL; simpl in HL; rewrite app_assoc in HL; apply in_app_or in HL as [HL|HL];
-           [apply Hy; auto | rewrite <- (nth_error_getf _ _ _ Ef); apply GL in HL; exact HL]).
-    + intros y EY HY. rewrite EX in EY; inversion EY; subst y. unfold w_ok in *; simpl. intros _ lid HL.
-      rewrite getf_setf. destruct (_ && _)%bool; unfold nids; simpl; apply WX; auto; lia.
-    + intros; apply w_ok_out; simpl; lia.
-  - apply IInv_w; auto.
-    + apply grow_setf; auto.
-    + intros f _. apply idx_ok_same; auto.
-    + intros; apply w_ok_out; simpl; lia.
-  - apply IInv_w; auto.
-    + apply grow_setf; auto.
-    + intros f _. apply idx_ok_same; auto.
-    + intros; apply w_ok_out; simpl; lia.
+    { intros t lid HL. apply WL; [lia|]. eapply group_lids_sub; eauto. }
+    assert (FR : forall f, nth_error (fracs st) (w_g x) = Some f -> idx_ok f ->
+                 idx_ok (mkFrac (f_act f) (f_sld f) (f_ro f) (f_blocks f) (f_pos f) (f_ids f)
+                   (upd_tok (nth (w_k x) (put_order (c_ver c) (cur_bulk c w x)) 0%N)
+                      (fun y => mkTl (tl_tok y) (tl_sorted y)
+                         (tl_queue y ++ group_lids (nth (w_k x) (put_order (c_ver c) (cur_bulk c w x)) 0%N) (w_docs x) (w_lids x)))
+                      (f_toks f))
+                   (f_from f) (f_to f) (f_total f) (f_wg f) (f_rl f) (f_subs f) (f_seal f) (f_sdocs f) (f_ssui f))).
+    { intros f Ef H. unfold idx_ok, nids in *; simpl. apply upd_tok_ok; auto.
+      intros y Hy lid HL; simpl in HL. rewrite app_assoc in HL. apply in_app_or in HL as [HL|HL].
+      - apply Hy; auto.
+      - apply GL in HL. rewrite (nth_error_getf _ _ _ Ef) in HL. exact HL. }
+    destruct (Nat.ltb _ _); simpl; (apply IInv_w; [assumption | growt | exact FR |]).
+    + intros y EY HY. rewrite EX in EY; inversion EY; subst y. split; simpl; [intros _; lenf; apply WR; lia|]. intros _ lid HL.
+      rewrite getf_setf. destruct (_ && _)%bool; unfold nids; simpl; apply WL; auto; lia.
+    + intros; apply (OUT 8); simpl; auto; lia.
+  - apply IInv_w; [assumption | growt | intros ? _; apply idx_ok_same; reflexivity |].
+    intros; apply (OUT 9); simpl; auto; lia.
+  - apply IInv_w; [assumption | growt | intros ? _; apply idx_ok_same; reflexivity |].
+    intros; apply w_ok_out; simpl; lia.
 Qed.
 
 Lemma new_frac_ok : idx_ok new_frac.
@@ -248,14 +248,16 @@ Lemma step_rot_iinv st : IInv st -> IInv (fst (step_rot st)).
 Proof.
   intros HI. unfold step_rot. destruct (Nat.ltb _ _); simpl; auto.
   pose proof (IInv_setf_same st (last_g st) (fun f => set_seal f (f_act f) (f_sld f) (f_ro f) SRot (f_sdocs f))
-                             (fun _ => eq_refl) (fun _ => eq_refl) HI) as [A B].
+                             (fun _ => eq_refl) (fun _ => eq_refl) HI) as [[A AL] B].
   split; simpl.
-  - apply Forall_app; split; auto. constructor; auto. apply new_frac_ok.
-  - eapply Forall_impl; [|exact B]. intros x Hx R lid HL. specialize (Hx R lid HL).
-    unfold getf in *; simpl in *.
-    match goal with |- _ < nids (nth ?g (?l ++ _) _) => change (nth g (l ++ [new_frac]) new_frac) with
-        (nth g (fracs (setf st (last_g st) (fun f => set_seal f (f_act f) (f_sld f) (f_ro f) SRot (f_sdocs f))) ++ [new_frac]) new_frac) end.
-    rewrite getf_app_new. exact Hx.
+  - split; [apply Forall_app; split; auto; constructor; auto; apply new_frac_ok | rewrite app_length; simpl; lia].
+  - eapply Forall_impl; [|exact B]. intros x [H0 Hx]. split; simpl.
+    + intros R. specialize (H0 R). simpl in H0. rewrite app_length; simpl. lia.
+    + intros R lid HL. specialize (Hx R lid HL).
+      unfold getf at 1; simpl.
+      change (nth (w_g x) (upd (last_g st) (fun f => set_seal f (f_act f) (f_sld f) (f_ro f) SRot (f_sdocs f)) (fracs st) ++ [new_frac]) new_frac)
+        with (nth (w_g x) (fracs (setf st (last_g st) (fun f => set_seal f (f_act f) (f_sld f) (f_ro f) SRot (f_sdocs f))) ++ [new_frac]) new_frac).
+      rewrite getf_app_new. exact Hx.
 Qed.
 
 Lemma step_m_iinv c st g : IInv st -> IInv (fst (step_m c st g)).
@@ -282,7 +284,7 @@ Proof.
                else mkFrac false false (f_ro f) (f_blocks f) (f_pos f) (f_ids f) (f_toks f) (f_from f) (f_to f)
                            (f_total f) (f_wg f) (f_rl f) (f_subs f) (f_seal f) (f_sdocs f) true))).
   { apply H; auto; intros x; destruct (replaced (f_seal x)); reflexivity. }
-  destruct HH as [A B]. split; auto.
+  destruct HH as [[A AL] B]. split; auto.
 Qed.
 
 Lemma step_iinv c st l : IInv st -> IInv (fst (step c st l)).
@@ -301,7 +303,7 @@ Qed.
 Lemma init_iinv c n : IInv (init c n).
 Proof.
   split; simpl.
-  - constructor; auto. apply new_frac_ok.
+  - split; auto. constructor; auto. apply new_frac_ok.
   - apply Forall_forall. intros x Hx. apply in_map_iff in Hx as [b [E _]]. subst x. apply w_ok_out; simpl; lia.
 Qed.
 
@@ -313,32 +315,72 @@ Lemma postings_bounded c n ls g f t lid :
   nth_error (fracs (exec c (init c n) ls)) g = Some f ->
   In t (f_toks f) -> In lid (tl_sorted t ++ tl_queue t) -> lid < length (f_ids f).
 Proof.
-  intros H Ht Hl. destruct (exec_iinv c ls _ (init_iinv c n)) as [A _].
+  intros H Ht Hl. destruct (exec_iinv c ls _ (init_iinv c n)) as [[A _] _].
   rewrite Forall_forall in A. specialize (A f (nth_error_In _ _ H)).
   unfold idx_ok in A. rewrite Forall_forall in A. apply (A t Ht lid Hl).
 Qed.
 
-(* consequence for a reader: the LID universe it takes at search.start -> after-mapping (the merged `_all_` posting)
-   is below the length of the ID tables it snapshots afterwards: newInverser never writes out of range *)
-Lemma mapping_step_safe c n ls r x g q a b :
-  let st := exec c (init c n) ls in
-  nth_error (rs st) r = Some x -> r_op x = RSearch g q PStart a b [] 0 [] [] ->
-  g < length (fracs st) ->
-  let st1 := fst (step_r c st r) in
-  forall x1 m, nth_error (rs st1) r = Some x1 -> r_op x1 = RSearch g q PMapped a b m 0 [] [] ->
-  forallb (fun lid => Nat.ltb lid (length (f_ids (getf st1 g)))) m = true.
+(* consequence for a reader: the LID universe it takes between search.start and after-mapping (the merged `_all_`
+   posting, exactly the expression of step_r) is below the length of the ID tables, which it snapshots afterwards
+   and which only grow (ids_only_grow): newInverser never writes out of range *)
+Lemma mapping_bounded c n ls g f :
+  nth_error (fracs (exec c (init c n) ls)) g = Some f ->
+  forallb (fun lid => Nat.ltb lid (length (f_ids f))) (tl_sorted (merge_tok (get_tok 0%N (f_toks f)))) = true.
 Proof.
-  intros st HX HO HG st1 x1 m HX1 HO1.
-  unfold st1, step_r in *. rewrite HX, HO in *. simpl in *.
-  unfold set_op, setr in HX1; simpl in HX1. rewrite nth_error_upd, Nat.eqb_refl, HX in HX1. simpl in HX1.
-  inversion HX1; subst x1; simpl in HO1. inversion HO1; subst m. clear HO1 HX1.
-  apply forallb_forall. intros lid HL. apply Nat.ltb_lt.
-  unfold set_op, setr; simpl. rewrite getf_setf. apply Nat.ltb_lt in HG. rewrite Nat.eqb_refl, HG. simpl.
-  destruct (nth_error (fracs st) g) as [f|] eqn:EF; [|apply nth_error_None in EF; apply Nat.ltb_lt in HG; lia].
-  rewrite (nth_error_getf _ _ _ EF) in *.
-  unfold get_tok in HL. destruct (find _ (f_toks f)) as [t|] eqn:FD; simpl in HL; [|rewrite app_nil_r in HL; contradiction].
-  apply find_some in FD as [IN _]. rewrite app_nil_r in HL.
-  eapply (postings_bounded c n ls g f t lid); eauto.
+  intros H. apply forallb_forall. intros lid HL. apply Nat.ltb_lt. simpl in HL.
+  unfold get_tok in HL. destruct (find _ (f_toks f)) as [t|] eqn:FD; simpl in HL; [|contradiction].
+  apply find_some in FD as [IN _]. eapply (postings_bounded c n ls g f t lid); eauto.
+Qed.
+
+Lemma step_grow c st l : IInv st -> forall g, g < length (fracs st) -> nids (getf st g) <= nids (getf (fst (step c st l)) g).
+Proof.
+  intros HI g HG.
+  assert (K : forall h, (forall x, nids x <= nids (h x)) -> forall gg, nids (getf st g) <= nids (getf (setf st gg h) g)).
+  { intros h Hh gg. destruct (grow_setf st gg h Hh) as [_ G]. apply G. }
+  destruct l; simpl.
+  - unfold step_w. destruct (nth_error (ws st) (N.to_nat w)) as [x|]; simpl; auto.
+    destruct (w_pc x) as [|[|[|[|[|[|[|[|[|pc]]]]]]]]]; simpl;
+      repeat match goal with
+             | |- context [if ?b then _ else _] => destruct b; simpl
+             | |- context [let '(_, _) := ?p in _] => destruct p; simpl
+             | |- context [match put_order ?a ?b with _ => _ end] => destruct (put_order a b); simpl
+             end; auto;
+      match goal with |- _ <= nids (getf (setw (setf ?s ?gg ?h) _ _) _) => apply (K h) end;
+      intros; unfold nids; simpl; rewrite ?app_length; lia.
+  - unfold step_snap. destruct (nth_error _ _) as [x|]; simpl; auto. destruct (r_op x); auto.
+  - unfold step_sb. destruct (nth_error (rs st) _) as [x|]; simpl; auto.
+    destruct (nth_error (c_qs c) _) as [[[qq qf] qt]|]; simpl; auto.
+    destruct (r_op x); simpl; auto. destruct (nth_error (r_snap x) _) as [g0|]; simpl; auto.
+    repeat match goal with |- context [if ?b then _ else _] => destruct b; simpl end; auto.
+    apply (K (fun f => set_rl f (S (f_rl f)))); auto.
+  - unfold step_fb. destruct (nth_error (rs st) _) as [x|]; simpl; auto.
+    destruct (r_op x); simpl; auto. destruct (nth_error (r_snap x) _) as [g0|]; simpl; auto.
+    destruct ids; simpl; auto.
+    repeat match goal with |- context [if ?b then _ else _] => destruct b; simpl end; auto.
+    apply (K (fun f => set_rl f (S (f_rl f)))); auto.
+  - assert (AD : forall st0 r g0 q a b m n s p gg, nids (getf st0 gg) <= nids (getf (fst (advance st0 r g0 q a b m n s p)) gg)).
+    { intros st0 r0 g0 q a b m n s p gg. revert s; induction p; intros s; simpl.
+      - destruct (grow_setf st0 g0 (fun f => set_rl f (pred (f_rl f))) (fun _ => le_n _)) as [_ G]. apply G.
+      - destruct (has_tok _ _); simpl; auto. }
+    unfold step_r. destruct (nth_error (rs st) _) as [x|]; simpl; auto.
+    destruct (r_op x) as [|g0 q pc a b m n s p|g0 ids nb]; simpl; auto.
+    + destruct pc; simpl.
+      * apply (K (fun f => set_toks f (upd_tok 0%N merge_tok (f_toks f)))); auto.
+      * destruct (forallb _ m); simpl; auto. apply (K (fun f => set_rl f (pred (f_rl f)))); auto.
+      * apply AD.
+      * destruct p as [|t p]; simpl; auto. eapply Nat.le_trans; [|apply AD].
+        apply (K (fun f => set_toks f (upd_tok t merge_tok (f_toks f)))); auto.
+    + destruct (existsb _ _); simpl; apply (K (fun f => set_rl f (pred (f_rl f)))); auto.
+  - unfold step_rot. destruct (Nat.ltb _ _); simpl; auto.
+    unfold getf at 2; simpl. rewrite app_nth1 by (rewrite length_upd; auto).
+    apply (K (fun f => set_seal f (f_act f) (f_sld f) (f_ro f) SRot (f_sdocs f))); auto.
+  - unfold step_m. destruct (nth_error (fracs st) _) as [f|]; simpl; auto.
+    destruct (f_seal f); simpl; auto;
+      repeat match goal with |- context [if ?b then _ else _] => destruct b; simpl end; auto;
+      match goal with |- _ <= nids (getf (setf ?s ?gg ?h) _) => apply (K h) end; auto.
+  - unfold step_sui. destruct (sui_enabled st); simpl; auto.
+    match goal with |- _ <= nids (getf {| fracs := upd ?gg ?h _ |} _) => apply (K h) end.
+    intros y; destruct (replaced (f_seal y)); auto.
 Qed.
 
 (* ---------------------------------------------------------------- the published range only widens *)
@@ -346,13 +388,15 @@ Definition range_le (f f' : frac) : Prop := (f_from f' <= f_from f)%N /\ (f_to f
 
 Lemma range_le_refl f : range_le f f. Proof. unfold range_le; repeat split; auto; apply N.le_refl. Qed.
 
+Ltac rr := intros; unfold range_le; simpl; repeat split; try apply N.le_refl; try apply N.le_min_l; try apply N.le_max_l; try lia.
+
 Lemma range_setf st g h g' : (forall x, range_le x (h x)) -> range_le (getf st g') (getf (setf st g h) g').
 Proof. intros H. rewrite getf_setf. destruct (_ && _)%bool; auto. apply range_le_refl. Qed.
 
 Lemma advance_range st r g q a b m n s p g' : range_le (getf st g') (getf (fst (advance st r g q a b m n s p)) g').
 Proof.
   revert s; induction p; intros s; simpl.
-  - unfold set_op, setr; simpl. apply (range_setf st g (fun f => set_rl f (pred (f_rl f)))). intros; apply range_le_refl.
+  - unfold set_op, setr; simpl. apply (range_setf st g (fun f => set_rl f (pred (f_rl f)))). rr.
   - destruct (has_tok _ _); simpl; auto. apply range_le_refl.
 Qed.
 
@@ -377,31 +421,42 @@ Proof.
     destruct (nth_error (c_qs c) _) as [[[qq qf] qt]|]; simpl; [|apply range_le_refl].
     destruct (r_op x); simpl; try apply range_le_refl. destruct (nth_error (r_snap x) _) as [g0|]; simpl; [|apply range_le_refl].
     repeat match goal with |- context [if ?b then _ else _] => destruct b; simpl end; try apply range_le_refl.
-    apply (range_setf st g0 (fun f => set_rl f (S (f_rl f)))). intros; apply range_le_refl.
+    apply (range_setf st g0 (fun f => set_rl f (S (f_rl f)))). rr.
   - unfold step_fb. destruct (nth_error (rs st) _) as [x|]; simpl; [|apply range_le_refl].
     destruct (r_op x); simpl; try apply range_le_refl. destruct (nth_error (r_snap x) _) as [g0|]; simpl; [|apply range_le_refl].
     destruct ids; simpl; try apply range_le_refl.
     repeat match goal with |- context [if ?b then _ else _] => destruct b; simpl end; try apply range_le_refl.
-    apply (range_setf st g0 (fun f => set_rl f (S (f_rl f)))). intros; apply range_le_refl.
+    apply (range_setf st g0 (fun f => set_rl f (S (f_rl f)))). rr.
   - unfold step_r. destruct (nth_error (rs st) _) as [x|]; simpl; [|apply range_le_refl].
     destruct (r_op x) as [|g0 q pc a b m n s p|g0 ids nb]; simpl; try apply range_le_refl.
     + destruct pc; simpl.
-      * apply (range_setf st g0 (fun f => set_toks f (upd_tok 0%N merge_tok (f_toks f)))). intros; apply range_le_refl.
+      * apply (range_setf st g0 (fun f => set_toks f (upd_tok 0%N merge_tok (f_toks f)))). rr.
       * destruct (forallb _ m); simpl; try apply range_le_refl.
-        apply (range_setf st g0 (fun f => set_rl f (pred (f_rl f)))). intros; apply range_le_refl.
+        apply (range_setf st g0 (fun f => set_rl f (pred (f_rl f)))). rr.
       * apply advance_range.
       * destruct p as [|t p]; simpl; try apply range_le_refl.
         eapply range_trans; [|apply advance_range].
-        apply (range_setf st g0 (fun f => set_toks f (upd_tok t merge_tok (f_toks f)))). intros; apply range_le_refl.
-    + destruct (existsb _ _); simpl; apply (range_setf st g0 (fun f => set_rl f (pred (f_rl f)))); intros; apply range_le_refl.
+        apply (range_setf st g0 (fun f => set_toks f (upd_tok t merge_tok (f_toks f)))). rr.
+    + destruct (existsb _ _); simpl; apply (range_setf st g0 (fun f => set_rl f (pred (f_rl f)))); rr.
   - unfold step_rot. destruct (Nat.ltb _ _); simpl; [|apply range_le_refl].
     unfold getf at 2; simpl. rewrite app_nth1 by (rewrite length_upd; auto).
-    apply (range_setf st (last_g st) (fun f => set_seal f (f_act f) (f_sld f) (f_ro f) SRot (f_sdocs f))). intros; apply range_le_refl.
+    apply (range_setf st (last_g st) (fun f => set_seal f (f_act f) (f_sld f) (f_ro f) SRot (f_sdocs f))). rr.
   - unfold step_m. destruct (nth_error (fracs st) _) as [f|]; simpl; [|apply range_le_refl].
     destruct (f_seal f); simpl; try apply range_le_refl;
       repeat match goal with |- context [if ?b then _ else _] => destruct b; simpl end; try apply range_le_refl;
-      match goal with |- range_le _ (getf (setf ?s ?gg ?h) _) => apply (range_setf s gg h) end; intros; apply range_le_refl.
+      match goal with |- range_le _ (getf (setf ?s ?gg ?h) _) => apply (range_setf s gg h) end; rr.
   - unfold step_sui. destruct (sui_enabled st); simpl; [|apply range_le_refl].
     match goal with |- range_le _ (getf {| fracs := upd ?gg ?h _ |} _) => apply (range_setf st gg h) end.
-    intros y; destruct (replaced (f_seal y)); apply range_le_refl.
+    intros y; destruct (replaced (f_seal y)); rr.
 Qed.
+
+Lemma ids_only_grow c n ls l g :
+  let st := exec c (init c n) ls in
+  g < length (fracs st) -> length (f_ids (getf st g)) <= length (f_ids (getf (fst (step c st l)) g)).
+Proof. intros st HG. apply (step_grow c st l); auto. apply exec_iinv. apply init_iinv. Qed.
+
+Lemma range_only_widens c st l g :
+  g < length (fracs st) ->
+  let f := getf st g in let f' := getf (fst (step c st l)) g in
+  (f_from f' <= f_from f)%N /\ (f_to f <= f_to f')%N /\ f_total f <= f_total f'.
+Proof. intros HG. apply (step_range c st l g HG). Qed.
